@@ -160,6 +160,12 @@ M = [
  ("C18-eq-ordinal-step-in-match", C + "consensus/block.rs",
   "            if let TransactionType::SPV = tx.transaction_type {\n                tx_index += tx.txs_replacements as u64;\n            } else {\n                tx_index += 1;\n            }",
   "            tx_index += match tx.transaction_type {\n                TransactionType::SPV => tx.txs_replacements as u64,\n                _ => 1,\n            };"),
+ ("C06-eq-leaf-loop-with-floor", C + "consensus/merkle.rs",
+  "            if tx.txs_replacements > 1 {\n                for _ in 0..tx.txs_replacements {", "            if tx.txs_replacements > 1 {\n                for _ in 0..tx.txs_replacements.max(2) {"),
+ ("C06-leaf-loop-may-run-zero-times", C + "consensus/merkle.rs",
+  "            if tx.txs_replacements > 1 {\n                for _ in 0..tx.txs_replacements {", "            if tx.txs_replacements != 1 {\n                for _ in 0..tx.txs_replacements {"),
+ ("C11-eq-capacity-from-lengths", C + "consensus_thread.rs",
+  "                self.txs_for_mempool.reserve(transactions.len());", "                let expected = transactions.len() * 2;\n                self.txs_for_mempool.reserve(expected);"),
 ]
 
 def main():
